@@ -134,8 +134,10 @@ REG.contract('C02', P, 'decode_match', params={'match': MatchS('ESCAPE_SEQUENCE_
              raises={'UnicodeDecodeError': 'True'}, exact_raises=False, ensures=['True'], result=Str, floor=2,
              note='callback of the single re.sub pass over a string literal: may fail with UnicodeDecodeError (unknown character name, code point out of range) and with nothing else, whatever characters the escape contains (\\N{...} admits any)')
 StrNS = Struct('StringNode', 'mesonbuild.mparser:StringNode', raw_value=Str, is_multiline=Bool, value=Str)
-REG.contract('C02', P, 'StringNode.escape', params={'self': StrNS}, raises={'UnicodeDecodeError': 'True'}, exact_raises=False, ensures=['True'], result=Str, floor=1,
-             note='one re.sub pass with decode_match as the callback: whatever the callback may raise, and nothing else')
+REG.contract('C02', P, 'StringNode.escape', params={'self': StrNS}, raises={'UnicodeDecodeError': 'True'}, exact_raises=False,
+             ensures=["len([e for e in __trace__ if e[0] == 're.sub']) == 1", "[e for e in __trace__ if e[0] == 're.sub'][0][1] is ESCAPE_SEQUENCE_SINGLE_RE",
+                      "[e for e in __trace__ if e[0] == 're.sub'][0][2] == self.raw_value", "result == [e for e in __trace__ if e[0] == 're.sub'][0][3]"], result=Str, floor=1,
+             note='ONE re.sub pass over the RAW text of the literal with the one escape pattern and decode_match as the callback (so the text an escape produces is never scanned again): whatever the callback may raise, and nothing else')
 TokS = Struct('Token', 'mesonbuild.mparser:Token', lineno=Int, colno=Int)
 REG.contract('C02', P, 'StringNode.__init__', variant='escape-step', region=('If', 'self.value = self.escape()'),
              params={'self': StrNS, 'token': TokS, 'escape': Bool},
